@@ -14,7 +14,7 @@ from .. import windows, model, progs
 
 rs = bootstrap()
 
-KEYS = ['mod:%d', 'kt:%d', 'ks:%d', 'kbig:%d', 'kf:%d', 'kmix:%d', 'kneg:%d', 'kmers:%d', 'ktneg:%d', 'knp:%d', 'kcent:%d']
+KEYS = ['mod:%d', 'kt:%d', 'ks:%d', 'kbig:%d', 'kf:%d', 'kmix:%d', 'kneg:%d', 'kmers:%d', 'ktneg:%d', 'knp:%d', 'kcent:%d', 'kobj:%d']
 
 
 def expected_groups(xs, keyf):
@@ -33,7 +33,7 @@ class C04(Check):
     RULE += PRELUDE_RULE
     ASSUMPTIONS = ['keys are hashable and == is an equivalence on them (NaN / unhashable keys are outside the statement)']
     ANCHORS = ['rxsci/operators/group_by.py', 'rxsci/operators/multiplex.py', 'rxsci/state/memory_store.py']
-    REQUIRED_TAGS = ['top', 'group', 'roll', 'roll_eq', 'split', 'key=kt', 'key=ks', 'key=kbig', 'key=kf', 'key=kmix', 'key=kneg', 'key=kmers', 'key=ktneg', 'key=knp', 'key=kcent', 'per-item', 'to_list',
+    REQUIRED_TAGS = ['top', 'group', 'roll', 'roll_eq', 'split', 'key=kt', 'key=ks', 'key=kbig', 'key=kf', 'key=kmix', 'key=kneg', 'key=kmers', 'key=ktneg', 'key=knp', 'key=kcent', 'key=kobj', 'equal-items-different-keys', 'per-item', 'to_list',
                      'many-keys', 'empty', 'over-256-keys'] + PRELUDE_TAGS
     REQUIRED_OBSERVED = ['child_lifetimes_checked', 'parent_lifetimes_checked', 'groups_flushed_at_completion']
 
@@ -52,6 +52,13 @@ class C04(Check):
                 name = ['top', 'group', 'split'][(j // 60) % 3]
             hi = max(nk * 2, 12)
             items = [rng.randint(0, hi) for _ in range(n)]
+            if j % 11 == 5 and nk < 300:
+                # items that are EQUAL (same hash) while the key mapper tells them apart: (g, 1) / (g, 1.0) / (g, True) keyed by the
+                # type of the second field.  Only under parents that do not compute on the items.
+                name = ['top', 'roll', 'roll_eq'][(j // 11) % 3]
+                yield {'key': 'ktype', 'parent': name, 'parent_node': windows.PARENTS[name](rng), 'items': items, 'inner': 'to_list',
+                       'itemform': 'equal-items-different-keys', 'nk': nk}
+                continue
             yield {'key': KEYS[j % len(KEYS)] % nk, 'parent': name, 'parent_node': windows.PARENTS[name](rng),
                    'items': items, 'inner': 'to_list' if j % 3 else 'per-item'}
 
@@ -59,6 +66,10 @@ class C04(Check):
         out = Outcome()
         items = case['items']
         keyf = progs.fn(case['key'])
+        if case.get('itemform'):
+            nk_ = max(1, min(case['nk'], 5))
+            items = [(x % nk_, [1, 1.0, True][(x // nk_) % 3]) for x in items]
+            out.tags.append(case['itemform'])
         out.tags += [case['parent'].split('>')[0], 'key=' + case['key'].split(':')[0], case['inner']]
         if not items:
             out.tags.append('empty')
